@@ -18,6 +18,57 @@ NOTE = ("Proved for every trace of the step alphabet (any number of threads and 
         "excluded by hypothesis. See C19_vacant_branch_needs_transfer_pre, C19_edge_assert_is_an_obligation.")
 
 
+SHUTTLE_WORKLOADS = ["acyclic", "cycle_ab", "cycle_ab_fb", "nested3", "deep", "deep_cond", "deep_cond_changed", "random_graph"]
+CIRCULAR = "transfer_target_search_wakes_wrong_thread"
+
+
+def listed(prop, cls):
+    return any(k["property"] == prop and k["class"] == cls for k in common.known_findings())
+
+
+def known_death(log, failed_trace):
+    """Recogniser of the ONE class of harness death that may be a known finding
+    (checks/notes/C19-circular-blocked-edges.txt), by mechanism:
+      (1) the process died with salsa's own debug assertion of update_transferred_edges
+          ("Circular reference between blocked edges"), and
+      (2) (shuttle runs, where the H2 trace of the failing execution is kept) that trace replays
+          through the Proto model without any mismatch — every recorded step enabled, every client
+          precondition satisfied, i.e. the state is reachable by a valid client — and the
+          transfer step the dying thread was performing (reconstructed from its last `mark` /
+          `syncstate` records) satisfies the client precondition and is answered EEdgeCycle by the
+          model: hypothesis (b) of C19_protocol, the assertion itself.
+    -> (class, detail) or None"""
+    if "Circular reference between blocked edges" not in log:
+        return None
+    if failed_trace is None:
+        return (CIRCULAR, "OS threads: salsa's assertion message (no trace of the failing run is kept)")
+    if not os.path.exists(failed_trace):
+        return None
+    lines = [l for l in open(failed_trace).read().split("\n") if l.strip()]
+    # the dying thread's last records: mark T K' -> OWNER.. ; syncstate T K ..; [wake ..]*
+    marks = [l.split() for l in lines if len(l.split()) > 2 and l.split()[2] == "mark"]
+    syncs = [l.split() for l in lines if len(l.split()) > 2 and l.split()[2] == "syncstate"]
+    if not marks or not syncs:
+        return None
+    mk, sy = marks[-1], syncs[-1]
+    if mk[3] != sy[3] or "->" not in mk:
+        return None
+    owner = mk[mk.index("->") + 1:]
+    if len(owner) != 2:
+        return None
+    step = f"{len(lines)} {mk[1]} transfer {mk[3]} {sy[4]} {mk[4]} {owner[0]} {owner[1]} -> 1"
+    tmp = failed_trace + ".with-transfer.trace"
+    with open(tmp, "w") as f:
+        f.write("\n".join(lines + [step]) + "\n")
+    rc, lg = common.sh([os.path.join(common.BUILD, "ocaml-proto", "replay"), tmp], timeout=600)
+    os.unlink(tmp)
+    m = re.search(r"MISMATCH line (\d+) \S+ (.*)", lg)
+    if m and int(m.group(1)) == len(lines) + 1 and "EEdgeCycle" in m.group(2):
+        return (CIRCULAR, f"trace of {len(lines)} records replays through the Proto model (valid client, reachable state); the "
+                          f"pending `{step.split(' ', 2)[2]}` satisfies the client precondition and the model answers EEdgeCycle")
+    return None
+
+
 def run(ctx):
     t0 = time.time()
     probs = common.audit()
@@ -43,20 +94,42 @@ def run(ctx):
     os.makedirs(out)
     runs = []
     crashed = False
-    for sched in (["pct"] if ctx.tier == "quick" else ["pct", "random"]):
-        d = os.path.join(out, "sh-" + sched)
+    known_met = {}
+    # one harness process per (scheduler, workload): a workload that dies under its schedule must not
+    # keep the workloads behind it from running
+    for sched, wl in [(s, w) for s in (["pct"] if ctx.tier == "quick" else ["pct", "random"]) for w in SHUTTLE_WORKLOADS]:
+        d = os.path.join(out, f"sh-{sched}-{wl}")
         os.makedirs(d)
         rc, lg = common.sh([os.path.join(rel_sh, "proto_harness"), "--out", d, "--iters", str(iters),
-                            "--seed", str(ctx.seed), "--scheduler", sched], timeout=3000)
+                            "--seed", str(ctx.seed), "--scheduler", sched, "--workload", wl], timeout=3000)
         if rc != 0:
+            cls = known_death(lg, d + ".FAILED")
+            if cls is not None and listed(ctx.prop, cls[0]):
+                # the one class of death that is a listed known finding, recognised by mechanism
+                # (salsa's own assertion + the recorded trace replayed through the model); the
+                # complete traces recorded before the death are still replayed
+                known_met.setdefault(cls[0], []).append(dict(scheduler=sched, workload=wl, detail=cls[1],
+                                                              traces_before_the_death=len(os.listdir(d))))
+                runs.append(d)
+                continue
             if "panicked" in lg or "shuttle::replay" in lg or "deadlock" in lg.lower() or rc < 0:
                 # the workload died under a shuttle-controlled schedule (a panic inside salsa, a
                 # deadlock or step-bound hit reported by shuttle): that is a concrete failing
                 # schedule of the implementation, not a broken check
+                keep = None
+                if os.path.exists(d + ".FAILED"):
+                    keep = os.path.join(common.ROOT, "replays", f"C19-failed-trace-{ctx.seed}-{sched}-{wl}.txt")
+                    os.makedirs(os.path.dirname(keep), exist_ok=True)
+                    shutil.copy(d + ".FAILED", keep)
                 crash = dict(kind="the protocol workload failed under a shuttle-controlled schedule (panic inside salsa / deadlock / "
                                   "step bound): a waiting thread was not woken correctly or a wait closed a cycle",
-                             scheduler=sched, harness_seed=ctx.seed, iters=iters, exit_status=rc, output_tail=lg[-2500:],
-                             how_to_replay=f"{os.path.join(rel_sh, 'proto_harness')} --out <dir> --iters {iters} --seed {ctx.seed} --scheduler {sched}")
+                             scheduler=sched, workload=wl, harness_seed=ctx.seed, iters=iters, exit_status=rc,
+                             recognised_class=cls[0] if cls else None, class_detail=cls[1] if cls else None,
+                             salsa_assertion=next((m for m in ("Circular reference between blocked edges",) if m in lg), None),
+                             protocol_trace_up_to_the_failure=keep, output_tail=lg[-2500:],
+                             how_to_replay=f"{os.path.join(rel_sh, 'proto_harness')} --out <dir> --iters {iters} --seed {ctx.seed} "
+                                           f"--scheduler {sched} --workload {wl}   (shuttle prints the failing schedule; save it to a "
+                                           "file and pass --replay FILE to re-run that one execution)")
                 ctx.violation(crash)
                 crashed = True
                 continue
@@ -73,7 +146,11 @@ def run(ctx):
     os.makedirs(d)
     rc, lg = common.sh([os.path.join(tdir, "release", "proto_harness"), "--out", d,
                         "--iters", str(max(10, iters // 4)), "--seed", str(ctx.seed)], timeout=3000)
-    if rc != 0:
+    cls = known_death(lg, None) if rc != 0 else None
+    if cls is not None and listed(ctx.prop, cls[0]):
+        known_met.setdefault(cls[0], []).append(dict(scheduler="os", workload="(free running)", detail=cls[1]))
+        runs.append(d)
+    elif rc != 0:
         if "panicked" in lg or rc < 0:
             ctx.violation(dict(kind="the protocol workload on OS threads died with a panic (an assertion inside salsa fired / a "
                                     "waiter was not woken): concrete failing run", harness_seed=ctx.seed, exit_status=rc,
@@ -126,6 +203,10 @@ def run(ctx):
             ctx.violation(dict(kind="proof obligation no longer checks", broken=proof_broken,
                                theorem_file="coq/Props/C19.v",
                                search=f"{files} recorded traces replayed through the model, none fails"), no_input=True)
+    for cls_name, lst in known_met.items():
+        kf = [k for k in common.known_findings() if k["property"] == ctx.prop and k["class"] == cls_name]
+        ctx.known_finding(f"class={cls_name} {kf[0]['text'] if kf else ''} (met in {len(lst)} workload runs of this check: "
+                          + "; ".join(f"{x['scheduler']}/{x['workload']}" for x in lst[:6]) + ")")
     sample = None
     for r in runs:
         fs = sorted(os.listdir(r))
@@ -151,6 +232,7 @@ def run(ctx):
         "traces_validated_against_impl": okn,
         "steps_replayed": steps,
         "mismatching_traces": mism,
+        "workload_runs_that_died_in_a_listed_known_class": known_met,
         "step_coverage": cov,
         "samples": [sample],
         "wall_s": round(time.time() - t0, 1),
@@ -161,6 +243,17 @@ def run(ctx):
 
 
 def replay(ctx, rp):
+    ft = rp.get("protocol_trace_up_to_the_failure")
+    if ft and os.path.exists(ft):
+        # a workload that died under its schedule: the kept trace through the model, and the recogniser
+        rc, lg = common.sh([os.path.join(common.BUILD, "ocaml-proto", "replay"), ft])
+        print(lg[-1500:])
+        tmp = os.path.join(common.BUILD, "proto-traces", "replay.FAILED")
+        os.makedirs(os.path.dirname(tmp), exist_ok=True)
+        shutil.copy(ft, tmp)
+        print("recognised class:", known_death(rp.get("salsa_assertion") or rp.get("output_tail", ""), tmp))
+        print("to re-run the workload:", rp.get("how_to_replay"))
+        return 1
     tf = rp.get("trace_file")
     if not tf:
         print("no trace recorded:", rp.get("broken"))
